@@ -114,7 +114,6 @@ class World(BaseWorld):
         ctx.probe('rank%d' % r)
         if L == 1:
             ctx.probe('length1')
-        inplace_count = {}
 
         def snap():
             return [e['ma'].data.tobytes() for e in pool] + [dens['ma'].data.tobytes()]
@@ -216,7 +215,7 @@ class World(BaseWorld):
                     # aliases of A in the pool (same object) share the model by construction
                     unchanged(before, snap(), {n for n, e in enumerate(pool) if e['ma'] is A['ma']}, pk, step)
                     check_entry(A, pk, step)
-                    inplace_count[id(A['ma'])] = inplace_count.get(id(A['ma']), 0) + 1
+                    A['nin'] = A.get('nin', 0) + 1
                 else:
                     R = lib(pk, f_out, A['ma'], B_lib)
                     unchanged(before, snap(), set(), pk, step)
@@ -253,7 +252,7 @@ class World(BaseWorld):
                         A['model'] = want
                         unchanged(before, snap(), {n for n, e in enumerate(pool) if e['ma'] is A['ma']}, pk, step)
                         check_entry(A, pk, step, tol=1e-11)
-                        inplace_count[id(A['ma'])] = inplace_count.get(id(A['ma']), 0) + 1
+                        A['nin'] = A.get('nin', 0) + 1
                     else:
                         unchanged(before, snap(), set(), pk, step)
                         no_share(R, pk, step)
@@ -278,7 +277,7 @@ class World(BaseWorld):
                     unchanged(before, snap(), {n for n, e in enumerate(pool) if e['ma'] is A['ma']}, pk, step)
                     check_entry(A, pk, step, tol=tol)
                     prod = model_dot(old, np.asarray(A['ma'].data))
-                    inplace_count[id(A['ma'])] = inplace_count.get(id(A['ma']), 0) + 1
+                    A['nin'] = A.get('nin', 0) + 1
                 else:
                     unchanged(before, snap(), set(), pk, step)
                     no_share(R, pk, step)
@@ -325,7 +324,7 @@ class World(BaseWorld):
                 if not np.array_equal(np.asarray(got), np.asarray(A['ma'].data)[:, a, b]):
                     raise Violation('getitem_wrong_slice', 'getitem', {'key': [types[a], types[b]]}, step)
                 check_entry(A, 'getitem', step)
-                if inplace_count.get(id(A['ma']), 0) >= 2:
+                if A.get('nin', 0) >= 2:
                     ctx.nontrivial = True
                 ctx.probe('getitem')
             elif k == 'badtype':
@@ -337,7 +336,7 @@ class World(BaseWorld):
                     must_raise('setitem_unknown', (ValueError,), A['ma'].__setitem__, tuple(key), 1.0)
                     unchanged(before, snap(), set(), 'setitem_unknown', step)
                 ctx.probe('unknown_type_' + op['which'])
-            if any(v >= 2 for v in inplace_count.values()):
+            if any(e.get('nin', 0) >= 2 for e in pool):
                 ctx.probe('two_inplace_same_array')
                 ctx.nontrivial = True
             ctx.state(r, min(L, 2), tuple(sorted(set(e['space'][0] for e in pool))), k, op.get('fn') or op.get('how'), bool(op.get('inplace')))
